@@ -1,6 +1,9 @@
 package engrouting
 
 import (
+	"math"
+	"math/big"
+	"sync/atomic"
 	"bytes"
 	"context"
 	"encoding/hex"
@@ -18,6 +21,8 @@ import (
 	"github.com/drand/drand/v2/crypto"
 	dhttp "github.com/drand/drand/v2/handler/http"
 
+	"github.com/drand/kyber"
+
 	"github.com/drand/drand/v2/zzverif/emit"
 )
 
@@ -25,9 +30,11 @@ import (
 type stubClient struct {
 	tag  int
 	info *chain2.Info
+	gets atomic.Int64 // requests handed to the backend
 }
 
 func (s *stubClient) Get(context.Context, uint64) (client.Result, error) {
+	s.gets.Add(1)
 	return nil, fmt.Errorf("stub")
 }
 func (s *stubClient) Watch(context.Context) <-chan client.Result {
@@ -85,7 +92,7 @@ func runStub(outDir string, seed int64, tier string, rep *emit.Report) error {
 				case 0, 1:
 					tag++
 					info := &chain2.Info{PublicKey: point, Period: time.Second, Scheme: sch.Name, GenesisTime: int64(1000 + tag), GenesisSeed: []byte("s")}
-					handlers[k] = h.RegisterNewBeaconHandler(&stubClient{tag, info}, k)
+					handlers[k] = h.RegisterNewBeaconHandler(&stubClient{tag: tag, info: info}, k)
 					owner[k] = tag
 					ops = append(ops, fmt.Sprintf("HReg %s %s", in.str(k), in.str(fmt.Sprintf("t%d", tag))))
 					rep.Count("stub/register")
@@ -159,6 +166,72 @@ func runStub(outDir string, seed int64, tier string, rep *emit.Report) error {
 			}
 		}
 	}
+	runSched(rng, rep, sch.Name, point, &cases, &descr)
 	req := append([]string{"From DV Require Import Model.Routing Corr.RoutingCorr.", "Open Scope Z_scope."}, in.defs...)
 	return rep.Shard(outDir, "cases_routing_stub", req, "rcase", "mismatches", cases, descr, 1500)
+}
+
+// runSched: /{hash}/public/{round} for boundary and huge rounds on chains of several periods. A
+// round that cannot be scheduled (common.TimeOfRound yields its documented error value: the round
+// is beyond the guard MaxUint64 >> (floor(log2(period+1))+2), or its time lands in the reserved
+// buffer below MaxInt64) lies in the future for ever: it must be answered 404 and never be handed
+// to the backend. K: forwarded iff the model's time of the round has come (Model/Time.v).
+func runSched(rng *rand.Rand, rep *emit.Report, schName string, point kyber.Point, cases, descr *[]string) {
+	ctx := log.ToContext(context.Background(), discardLogger())
+	errVal := new(big.Int).Sub(big.NewInt(math.MaxInt64), new(big.Int).Lsh(big.NewInt(1), 36))
+	for _, p := range []int64{1, 3, 30, 3600, 1<<20 + 7} {
+		h, err := dhttp.New(ctx, "verif")
+		if err != nil {
+			rep.Fail("C16-engine", err.Error(), nil)
+			return
+		}
+		// genesis far enough back that the rounds around "now" are unambiguous, on a period boundary + half
+		now0 := time.Now().Unix()
+		g := now0 - 1000*p - p/2
+		if g < 0 {
+			g = 0
+		}
+		hash := make([]byte, 32)
+		rng.Read(hash)
+		hx := hex.EncodeToString(hash)
+		sc := &stubClient{tag: 1, info: &chain2.Info{PublicKey: point, Period: time.Duration(p) * time.Second, Scheme: schName, GenesisTime: g, GenesisSeed: []byte("s")}}
+		h.RegisterNewBeaconHandler(sc, hx)
+		bits := int(math.Log2(float64(p) + 1))
+		guard := uint64(math.MaxUint64) >> (bits + 2)
+		cur := uint64((now0-g)/p) + 1
+		rb := new(big.Int).Div(new(big.Int).Sub(errVal, big.NewInt(g)), big.NewInt(p)).Uint64()
+		rounds := []uint64{1, 2, cur - 3, cur + 6, cur + 1000, guard - 1, guard, guard + 1, 1<<61 - 1, 1<<58 - 1, 1<<63 - 1, 1 << 63, math.MaxUint64 - 1, math.MaxUint64,
+			rb - 1, rb, rb + 1, rb + 2, rb + 3, rng.Uint64() | 1<<62, rng.Uint64()>>uint(rng.Intn(20)) | 1<<40}
+		for _, r := range rounds {
+			before := sc.gets.Load()
+			now := time.Now().Unix()
+			rec := httptest.NewRecorder()
+			req := httptest.NewRequest(http.MethodGet, fmt.Sprintf("/%s/public/%d", hx, r), nil)
+			rctx, cancel := context.WithTimeout(context.Background(), 5*time.Second)
+			h.GetHTTPHandler().ServeHTTP(rec, req.WithContext(rctx))
+			cancel()
+			forwarded := sc.gets.Load() != before
+			rep.Evaluations++
+			rep.DistinctNontrivial++
+			// the property's own predicate, in exact arithmetic
+			ideal := new(big.Int).Add(big.NewInt(g), new(big.Int).Mul(new(big.Int).SetUint64(r-1), big.NewInt(p)))
+			unschedulable := r >= guard || ideal.Cmp(errVal) > 0
+			name := fmt.Sprintf("GET /<hash>/public/%d period=%ds genesis=%d now=%d -> %d forwarded=%v", r, p, g, now, rec.Code, forwarded)
+			if unschedulable {
+				rep.Count("sched/unschedulable")
+				if forwarded || rec.Code != http.StatusNotFound {
+					rep.Fail("C16-unschedulable-round-treated-as-past", "a round that can never be scheduled on this chain was not answered as a future round (404, backend not asked)", name)
+				}
+			} else if ideal.Cmp(big.NewInt(now+p+2)) > 0 {
+				rep.Count("sched/future")
+				if forwarded {
+					rep.Fail("C16-future-round-forwarded", "a round whose time has not come was handed to the backend", name)
+				}
+			} else {
+				rep.Count("sched/past")
+			}
+			*cases = append(*cases, fmt.Sprintf("RSched %d %d %s %d %s", p, g, emit.U(r), now, emit.Bool(forwarded)))
+			*descr = append(*descr, name)
+		}
+	}
 }
